@@ -42,8 +42,7 @@ SetSess(s, r) == sess' = [x \in DOMAIN sess \cup {s} |-> IF x = s THEN r ELSE se
 OwnerOpen(p, lid) == <<p, lid>> \in DOMAIN owner /\ IsOpen(owner[<<p, lid>>])
 
 EvReset == IsEv("Reset") /\ Canon
-EvBegin == IsEv("Begin") /\ Canon' = Canon /\ cap' = Ev.cap /\ sess' = <<>> /\ inflight' = {} /\ pend' = {}
-           /\ outs' = {} /\ owner' = <<>>
+EvBegin == IsEv("Begin") /\ cap' = Ev.cap /\ sess' = <<>> /\ inflight' = {} /\ pend' = {} /\ outs' = {} /\ owner' = <<>>
 
 EvPeerSend == /\ IsEv("PeerSend")
               /\ inflight' = inflight \cup {[id |-> Ev.id, len |-> Ev.len, p |-> Ev.p, lid |-> Ev.lid, csid |-> Ev.csid]}
@@ -100,7 +99,10 @@ EvSettled == /\ (IsEv("Settled") \/ IsEv("End"))
              /\ inflight' = {}
              /\ UNCHANGED <<cap, sess, pend, outs, owner>>
 
-Next == EvReset \/ EvBegin \/ EvPeerSend \/ EvAccept \/ EvConnCall \/ EvConnect \/ EvClose \/ EvData \/ EvSend
+\* Skip: the driver could not perform a step of the behaviour (the session it names does not exist in the real run)
+EvSkip == IsEv("Skip") /\ UNCHANGED <<cap, sess, inflight, pend, outs, owner>>
+
+Next == EvSkip \/ EvReset \/ EvBegin \/ EvPeerSend \/ EvAccept \/ EvConnCall \/ EvConnect \/ EvClose \/ EvData \/ EvSend
         \/ EvOut \/ EvPeerRecv \/ EvSettled
 Spec == Init /\ [][Next]_vars
 =============================================================================
